@@ -299,6 +299,8 @@ func runC02(e *Engine, r *Report) {
 	borrow(e, r, "C03", "GD-vote-grant", "GD-campaign", "GD-campaign-pred", "GD-leader", "GD-tally", "WMW-term", "WMW-vote-reset")
 	ruleResetProgress(e, r)
 	ruleBootstrapSorted(e, r)
+	ruleHeartbeatMatchArg(e, r)
+	ruleRestoreFastForward(e, r)
 	// the apply cursor handed out by the raft core never rewinds (decided by C19's rule set)
 	borrow(e, r, "C19", "DEP-processed-ack")
 	borrow(e, r, "C08", "OWN-members-copy", "TBL-ssmeta")
